@@ -328,10 +328,13 @@ static void driver(void *dummy)
 			mc_obs("D:burst USR1+USR2->L0");
 			burst_left = 2;
 			sched_signal_atomic = 0;
+			sched_signal_defer = 1;
 			sched_signal(tid_of[0], SIGUSR1);
+			sched_yield_point("burst-gap");     /* loop 0 may already be inside the first handler when the second one is sent */
 			sched_signal(tid_of[0], SIGUSR2);
 			sched_wait_flag(&burst_done);
 			burst_done = 0;
+			sched_signal_defer = 0;
 			sched_signal_atomic = 1;
 			break;
 		case 2: command(I[arg[c]].thr, C_REG, arg[c]); break;
